@@ -27,6 +27,9 @@ pub enum Mutation {
     Reorder,
     Whitespace,
     JunkSignature,
+    /// a non-verifying entry under the signer's own key id placed in front of the genuine one (a
+    /// stale signature left by a tool that appends, or clutter added in flight)
+    StaleSignatureFirst,
     /// change the scalar at the n-th scalar position of the signed portion
     Scalar(usize),
     /// insert a new member into the n-th object of the signed portion
@@ -402,6 +405,12 @@ fn build(sc: &Sc) -> World {
         Mutation::Reorder => style = Style::Reversed,
         Mutation::Whitespace => style = Style::Tabs,
         Mutation::JunkSignature => doc.sigs.push(sign_with(&original_signed, &keys::ed(w, 998))),
+        Mutation::StaleSignatureFirst => {
+            let mut other = original_signed.clone();
+            other.set("spec_version", s("1.0.1"));
+            let stale = sign_with(&other, &signer[0]);
+            doc.sigs.insert(0, stale);
+        }
         Mutation::Scalar(i) => {
             let c = count_scalars(&mutated).max(1);
             applied = mutate_scalar(&mut mutated, &mut 0, i % c);
@@ -542,7 +551,7 @@ impl Check for C12 {
         "C12"
     }
     fn rule(&self) -> String {
-        "a validly signed foreign document of one role type (root, timestamp, snapshot, targets, delegated targets) carrying 0..3 unknown members (values incl. strings with control characters) at one struct-like object level (names incl. space, '!', quote, backslash, non-ASCII, prefix pairs) and optionally prefix-ordered target names, optionally key identifiers spelt in upper-case hex in the key tables; exactly one in-flight change: none, member re-ordering, whitespace, junk signature, scalar change / member insert / delete / duplicate at any position, insertion of a sibling member whose name differs from an existing one only by a backslash or quote (member-adding mutations are loaded 6 times, other content-changing ones twice, worst attempt judged, because the client's maps are randomly seeded), _type rewrite, timestamp<->snapshot swap under a shared key; pins are version-only so signatures are the only defence; non-trivial = a mutation was applied to a document the client fetched, or unknown members were present; distinct = distinct canonical trace".into()
+        "a validly signed foreign document of one role type (root, timestamp, snapshot, targets, delegated targets) carrying 0..3 unknown members (values incl. strings with control characters) at one struct-like object level (names incl. space, '!', quote, backslash, non-ASCII, prefix pairs) and optionally prefix-ordered target names, optionally key identifiers spelt in upper-case hex in the key tables; exactly one in-flight change: none, member re-ordering, whitespace, junk signature by an unknown key appended, stale signature under the signer's key id in front of the genuine one, scalar change / member insert / delete / duplicate at any position, insertion of a sibling member whose name differs from an existing one only by a backslash or quote (member-adding mutations are loaded 6 times, other content-changing ones twice, worst attempt judged, because the client's maps are randomly seeded), _type rewrite, timestamp<->snapshot swap under a shared key; pins are version-only so signatures are the only defence; non-trivial = a mutation was applied to a document the client fetched, or unknown members were present; distinct = distinct canonical trace".into()
     }
     fn assumptions(&self) -> Vec<String> {
         vec![
@@ -561,7 +570,7 @@ impl Check for C12 {
         }
     }
     fn required_faults(&self, _t: Tier) -> Vec<&'static str> {
-        vec!["scalar_changed", "confusable_member_inserted", "member_inserted", "member_deleted", "member_duplicated", "type_tag_rewritten", "role_swap", "reordered", "reformatted", "junk_signature", "unknown_members_present"]
+        vec!["scalar_changed", "confusable_member_inserted", "member_inserted", "member_deleted", "member_duplicated", "type_tag_rewritten", "role_swap", "reordered", "reformatted", "junk_signature", "stale_signature_first", "unknown_members_present"]
     }
     fn required_probes(&self, _t: Tier) -> Vec<&'static str> {
         vec!["tampering_rejected", "benign_change_accepted", "exposed_content_equals_signed", "foreign_document_with_extras_accepted"]
@@ -582,7 +591,7 @@ impl Check for C12 {
             0 | 1 => Mutation::None,
             2 => Mutation::Reorder,
             3 => Mutation::Whitespace,
-            4 => Mutation::JunkSignature,
+            4 => if r.chance(1, 2) { Mutation::JunkSignature } else { Mutation::StaleSignatureFirst },
             5 | 6 => Mutation::Scalar(r.usize_below(4096)),
             7 => Mutation::Insert(r.usize_below(4096)),
             8 => Mutation::Delete(r.usize_below(4096)),
@@ -656,7 +665,7 @@ impl Check for C12 {
         // loaded several times and judged by the worst attempt. Only the aggregate is traced (on a
         // tree where the property holds every attempt ends the same way).
         let attempts = match sc.mutation {
-            Mutation::None | Mutation::Reorder | Mutation::Whitespace | Mutation::JunkSignature | Mutation::RoleSwap => 1,
+            Mutation::None | Mutation::Reorder | Mutation::Whitespace | Mutation::JunkSignature | Mutation::StaleSignatureFirst | Mutation::RoleSwap => 1,
             // mutations that add a member are the ones whose fate can hinge on map iteration order
             Mutation::Insert(_) | Mutation::InsertConfusable { .. } | Mutation::Duplicate { .. } => ATTEMPTS,
             _ => 2,
@@ -701,12 +710,13 @@ impl Check for C12 {
         let c_last = json::canon(&norm(&dedupe(&w.mutated_signed, false)));
         let content_changed = c_first.as_deref() != Some(&canon_orig[..]) && c_last.as_deref() != Some(&canon_orig[..]);
         let content_same = c_first.as_deref() == Some(&canon_orig[..]) && c_last.as_deref() == Some(&canon_orig[..]);
-        let benign = matches!(sc.mutation, Mutation::None | Mutation::Reorder | Mutation::Whitespace | Mutation::JunkSignature);
+        let benign = matches!(sc.mutation, Mutation::None | Mutation::Reorder | Mutation::Whitespace | Mutation::JunkSignature | Mutation::StaleSignatureFirst);
         let mutation_name = match &sc.mutation {
             Mutation::None => "none",
             Mutation::Reorder => "reorder",
             Mutation::Whitespace => "whitespace",
             Mutation::JunkSignature => "junk-signature",
+            Mutation::StaleSignatureFirst => "stale-signature-first",
             Mutation::Scalar(_) => "scalar-change",
             Mutation::Insert(_) => "member-insert",
             Mutation::Delete(_) => "member-delete",
@@ -805,6 +815,7 @@ impl Check for C12 {
                 Mutation::Reorder => o.fault("reordered"),
                 Mutation::Whitespace => o.fault("reformatted"),
                 Mutation::JunkSignature => o.fault("junk_signature"),
+                Mutation::StaleSignatureFirst => o.fault("stale_signature_first"),
                 _ => {}
             }
         }
